@@ -406,7 +406,13 @@ func (e *Eng) VerifyFunc(fc *FuncContract) (res *FuncResult) {
 	}
 	ctx := tr.calleeCtx(fn, tr.params, nil, tr.entry, tr.entry)
 	for _, c := range fc.Requires {
-		vc.Assume(ctx.evalBool(c.E))
+		vc.Assume(ctx.fact(c.E))
+	}
+	if tr.recovering && (fc.HasModifies || fc.Pure) {
+		tr.storeChecks = true
+		for _, m := range fc.Modifies {
+			tr.fnFrame = append(tr.fnFrame, ctx.evalLval(m.E)...)
+		}
 	}
 	// vacuity guard: the preconditions (with typing facts) must be satisfiable
 	cov := vc.Oblige("cover", "requires", tTrue, fc.File)
@@ -461,12 +467,12 @@ func (tr *FnTr) checkPost(fc *FuncContract, fn *ssa.Function, results []Val, kin
 	ctx := tr.calleeCtx(fn, tr.params, results, tr.st, tr.entry)
 	cl := fc.Ensures
 	for i, c := range cl {
-		g := ctx.evalBool(c.E)
+		g := ctx.goal(c.E)
 		tr.vc.Oblige(kind, labelOr(c.Label, i+1), Implies(tr.st.Reach, g), c.Pos)
 	}
 	if exc {
 		for i, c := range fc.Panics {
-			g := ctx.evalBool(c.E)
+			g := ctx.goal(c.E)
 			tr.vc.Oblige("panics", labelOr(c.Label, i+1), Implies(tr.st.Reach, g), c.Pos)
 		}
 	}
@@ -490,9 +496,15 @@ func (tr *FnTr) checkPost(fc *FuncContract, fn *ssa.Function, results []Val, kin
 func (tr *FnTr) exceptionalExit(fc *FuncContract, fn *ssa.Function) {
 	vc := tr.vc
 	st := State{Reach: tTrue}
-	st.Mem = tr.havocAllMemKeepNothing("exc")
 	st.Alloc = vc.Fresh("alloc_exc", SInt)
 	vc.Assume(Le(tr.entry.Alloc, st.Alloc))
+	if tr.storeChecks {
+		// every write was checked against the frame: at any panic point memory agrees
+		// with the entry memory outside the frame and outside fresh objects
+		st.Mem = tr.havocMem(tr.entry.Mem, tr.entry.Alloc, tr.fnFrame, true, "exc")
+	} else {
+		st.Mem = tr.havocAllMemKeepNothing("exc")
+	}
 	// private objects allocated so far keep their identity (their ids are < alloc_exc)
 	for _, o := range tr.privObjs {
 		vc.Assume(Lt(o, st.Alloc))
@@ -548,7 +560,7 @@ func (e *Eng) VerifyLemma(lm *Lemma) *FuncResult {
 	tr.entry = st
 	ctx := &SpecCtx{tr: tr, st: st, old: st}
 	if len(lm.Split) == 0 {
-		g := ctx.evalBool(lm.E)
+		g := ctx.goal(lm.E)
 		vc.Oblige("lemma", "", g, lm.Pos)
 		return res
 	}
@@ -558,7 +570,7 @@ func (e *Eng) VerifyLemma(lm *Lemma) *FuncResult {
 		if i == len(lm.Split) {
 			c2 := *ctx
 			c2.bound = bound
-			g := c2.evalBool(lm.E)
+			g := c2.goal(lm.E)
 			vc.Oblige("lemma", strings.TrimPrefix(label, "."), g, lm.Pos)
 			return
 		}
